@@ -13,6 +13,7 @@ import (
 // a copy of the slice header.
 
 type romTable struct {
+	Scalar Value // non-nil: the global itself is this constant value
 	ID    int64
 	Elems []Value
 	ElemT types.Type
@@ -80,6 +81,15 @@ func scanROM(p *Program, ex *Exec) {
 				}
 				g, ok := st.Addr.(*ssa.Global)
 				if !ok || mutated[g] {
+					continue
+				}
+				// sentinel errors: var X = errors.New("...") never reassigned
+				if call, ok := st.Val.(*ssa.Call); ok {
+					if callee := call.Call.StaticCallee(); callee != nil && callee.String() == "errors.New" {
+						next--
+						rt := &romTable{ID: next, Name: "G:" + shortPkg(g.Pkg.Pkg) + "." + g.Name(), Scalar: IfaceV{IntLit(errTag(ex)), IntLit(next)}}
+						romByGlobal[rt.Name] = rt
+					}
 					continue
 				}
 				sl, ok := st.Val.(*ssa.Slice)
@@ -152,6 +162,9 @@ func romLoad(st *State, p *PtrV) (Value, bool) {
 	case RObj:
 		if len(p.Path) == 0 {
 			if rt, ok := romByGlobal[p.Class]; ok {
+				if rt.Scalar != nil {
+					return rt.Scalar, true
+				}
 				n := IntLit(int64(len(rt.Elems)))
 				return SliceV{IntLit(rt.ID), Zero, n, n}, true
 			}
